@@ -946,12 +946,19 @@ impl<'a> PathRun<'a> {
             }
             let want: BTreeSet<[usize; 3]> = spec.mt[q].iter().copied().filter(|t| !uses_all_names(t)).collect();
             let show = |t: &[usize; 3]| -> Vec<String> { t.iter().map(|l| if *l == 0 { "-".to_string() } else { ctx.us[*l - 1].show() }).collect() };
+            // Both directions are judged only in states without redundant slots: there the universe terms of a class use
+            // exactly the class's names, so the specification can spell a match iff it can be grounded here.  With a
+            // redundant slot the only spellings of a class may carry a name the class does not depend on, and a pattern
+            // with two binders can run out of pool names in the specification although the real match needs fewer
+            // (false alarm met in the thorough tier: sum(f(2,3); 2 2. p(1,1)) after p(1,1) = h(d, p(3,2))).  Reported
+            // matches in such states are still instantiated and looked up (check_matching).
+            if !spec.nored { continue; }
             if let Some(t) = got.difference(&want).next() {
                 self.finding("C05", "ematch_all reports a match that is not an instance of the pattern in the congruence", key, path, step, "",
                     json!({"pattern": ps.text, "bindings": show(t), "reported": got.len(), "expected": want.len()}));
                 return;
             }
-            if spec.nored && anomalies == 0 && self.stats.ungroundable == ungroundable_before {
+            if anomalies == 0 && self.stats.ungroundable == ungroundable_before {
                 if let Some(t) = want.difference(&got).next() {
                     self.finding("C04", "a represented instance of the pattern is not matched", key, path, step, "",
                         json!({"pattern": ps.text, "bindings": show(t), "reported": got.len(), "expected": want.len()}));
